@@ -70,6 +70,18 @@ func runC10(ctx *Ctx, g Dag, buf int, tagged bool) {
 			d.Edges = append(d.Edges, Edge{From: sn.Name + ".out", To: tg + ".in"})
 		}
 	}
+	// every second process gets a Prepend (the bash keyword `time` accepts the pattern's subshell)
+	prepends := map[string]string{}
+	k := 0
+	for i := range d.Nodes {
+		if d.Nodes[i].Kind == "proc" {
+			if k%2 == 1 {
+				d.Nodes[i].Prepend = "time"
+				prepends[d.Nodes[i].Name] = "time"
+			}
+			k++
+		}
+	}
 	rr := RunWorkflow(d, RunOpts{Pre: pre, Timeout: 25e9, Env: []string{fmt.Sprintf("SCIPIPE_BUFSIZE=%d", buf)}})
 	defer os.RemoveAll(rr.Dir)
 	files, em := g.simulate()
@@ -114,9 +126,12 @@ func runC10(ctx *Ctx, g Dag, buf int, tagged bool) {
 			} else if n.PIn != "" {
 				params["p"] = em[n.PIn][t].path
 			}
-			model := ctx.Drv.Ask("fmtcmd", patterns[n.Name], kvField(ins), "", "out"+RS+e.path, kvField(params), "", "")
+			model := ctx.Drv.Ask("fmtcmd", patterns[n.Name], kvField(ins), "", "out"+RS+e.path, kvField(params), "", prepends[n.Name])
 			if model != "OK\t"+a.Command {
 				bad(fmt.Sprintf("Command %q differs from the command the formatting model derives %q", a.Command, model))
+			}
+			if pp := prepends[n.Name]; pp != "" && !strings.HasPrefix(a.Command, pp+" ") {
+				bad(fmt.Sprintf("Command %q lacks the process's Prepend %q: it is not the command that was executed", a.Command, pp))
 			}
 			if len(params) == 0 {
 				params = map[string]string{}
@@ -213,6 +228,34 @@ func checkC10(ctx *Ctx) {
 			runC10(ctx, jobs[i].g, jobs[i].buf, jobs[i].tagged)
 		}
 	})
+	// tasks with two outputs: the audit file of *each* output lists all outputs of the task
+	for _, ch := range []Chain{{Inputs: []string{"a.txt", "b.txt"}, Levels: []Level{{TwoOut: true}, {}}, Max: 2}, {Inputs: []string{"a.txt"}, Levels: []Level{{}, {TwoOut: true}}, Max: 1}} {
+		dir := newDir()
+		for p, content := range ch.sources() {
+			ioutil.WriteFile(filepath.Join(dir, p), []byte(content), 0644)
+		}
+		rr := RunWorkflow(ch.desc(), RunOpts{Dir: dir})
+		ctx.Res.Eval(fmt.Sprintf("two-out %v", ch), true, ch)
+		ctx.Res.Count("two-output-chain")
+		if rr.Exit != 0 {
+			ctx.Res.Disagree(Violation{What: "two-output chain failed: " + firstLine(rr.Stderr), Witness: ch})
+			os.RemoveAll(dir)
+			continue
+		}
+		for _, t := range ch.tasks() {
+			for _, o := range t.Outs {
+				a, err := readAudit(dir, o)
+				if err != nil {
+					ctx.Res.Violate(Violation{What: fmt.Sprintf("output %s has no valid audit file: %v", o, err), Class: "c10.invalid", Witness: ch})
+					continue
+				}
+				if !reflect.DeepEqual(a.OutFiles, t.Outs) {
+					ctx.Res.Violate(Violation{What: fmt.Sprintf("audit file of %s lists the outputs %v, the task wrote %v", o, a.OutFiles, t.Outs), Class: "c10.outfiles", Witness: ch})
+				}
+			}
+		}
+		os.RemoveAll(dir)
+	}
 }
 
 // ---------------- C11 ----------------
